@@ -68,6 +68,15 @@ def run(prop, tier, replay=None):
         tlc_must_pass(res, f"TestCommand MC[{prop}]")
         require_actions(res, ACTIONS + FOCUS_ACTIONS[prop], f"TestCommand MC[{prop}]")
         states, trans = res.distinct, res.generated
+        if prop == "C14" and tier == "thorough":
+            # liveness: under weak fairness every run of the model ends (hanging commands are cut by the limits)
+            lpath = os.path.join(work, "MC_live.cfg")
+            with open(lpath, "w") as f:
+                f.write('SPECIFICATION FairSpec\nCONSTANTS\n  Focus = "C14"\nPROPERTIES Terminates\nCHECK_DEADLOCK FALSE\n')
+            lres = tlc("MC_TestCommand", lpath, work, workers=min(NCPU, 8), timeout=3000, line_filter=lambda l: l.startswith("Error") or "violated" in l)
+            tlc_must_pass(lres, "TestCommand liveness (Terminates)")
+            cov["liveness_terminates_states"] = lres.distinct
+            log(f"MC TestCommand[C14] liveness: <>Done holds under weak fairness on {lres.distinct} states, {lres.wall:.0f}s")
         cov["mc_action_counts"] = {a: res.actions[a][1] for a in res.actions if a[0].isupper() and a not in ("Init",)}
         allsc = sorted((json.loads(f[0]) for f in res.printed("REPLAY")), key=lambda v: json.dumps(v, sort_keys=True))
         log(f"MC TestCommand[{prop}]: {res.distinct} distinct states, {len(allsc)} scenarios, all four property invariants hold on the model, {res.wall:.0f}s")
